@@ -11,7 +11,8 @@ THEOREMS = ["Mesa.Agents." + t for t in (
     "C04_groupby_map_like_do", "C04_exactly_once_all_histories",
     "C04_exception_ends_the_call_at_the_raiser", "C04_map_and_groupby_under_exceptions",
     "C04_set_edits_invisible_to_the_walk", "C04_every_visiting_order_never_twice_survivors_once",
-    "C04_shuffle_do_and_groupby_do_exactly_once", "C04_activation_leaves_program_made_sets_as_they_are")]
+    "C04_shuffle_do_and_groupby_do_exactly_once", "C04_activation_leaves_program_made_sets_as_they_are",
+    "C04_groupby_map_results_aligned")]
 COUNTS = {"quick": 1000, "thorough": 150000}
 TRUSTED = [
     "CPython refcounting + weakref: an agent dies (its weak references clear) at the moment its model deregisters it and the program holds no reference; no reference cycles through agents",
